@@ -1,6 +1,6 @@
 """C16 - reading results never changes them.
 
-spec:   spec/Results.tla (actions Get, MutateHeld, SetSuppress, SetCutoff, RenderTable, BaseCsv;
+spec:   spec/Results.tla (actions Get, MutateHeld, SetSuppress, SetCutoff, RenderTable, BaseCsv, Extend;
         action property C16_ReadsArePure, invariants C16_GetValue, C16_Repeatable)
 TLC:    exhaustive check of the bounded instance; every maximal call history is emitted
 replay: each history is executed on
@@ -8,6 +8,13 @@ replay: each history is executed on
             of the unit tests  ('t': [0, 1, 2], 'x': [4, 5, 6])                       - world "known"
           * thorough tier: a really solved model (gl_book.chapter3.SIM, MaxTime 8, main()) using its
             own series 't' and 'HH__F'; the stored lists are restored between histories - world "solved"
+          * RAGGED stores (series of unequal length; instance MC_Results_ragged*: 't' has 5 points, 'x' 3,
+            Extend = TimeSeriesHolder.AppendValue on one series): on the known-series Model in both tiers
+            and, thorough tier, on a Model whose run was really interrupted (S__X = 1/(S__G - 3) fails at
+            step 3: the exogenous S__G and k keep MaxTime+1 = 5 points, S__X and t stop at 3) - world
+            "interrupted"; all four stored series are tracked.  The rendering that Model.main() itself
+            performs in its `finally` is observed through a harness-side wrapper around the bound method
+            (snapshot before / after) and judged as one more trace (behaviour "main-finally")
           * a small BaseSolver subclass (the object of test_base_solver.py) for BaseCsv
         after every call a deep snapshot of EquationSolver.TimeSeries, of BaseSolver.VariableList and of
         the BaseSolver's series attributes is taken and compared with the previous one; lists returned
@@ -27,7 +34,7 @@ names the attributes that are its series), as DESIGN.md section 6 C16 fixes.
 
 Values are shipped to TLC as small ints: the known series are small ints already; the floats of the
 solved model are coded 100 + rank among the distinct values of the tracked series (injective), the
-driver's sentinel is the int 99, anything else is -1.
+driver's own values are the ints 99 (sentinel appended to returned lists) and 7 (Extend), anything else is -1.
 """
 import json
 import random
@@ -35,11 +42,16 @@ import random
 from harness import core
 
 SENTINEL = 99
+EXTVAL = 7                                                            # = ExtVal in Results.tla
 NOCUT = -1
 KNOWN = {'t': [0, 1, 2], 'x': [4, 5, 6]}                              # = MC_InitStore
 BASE = {'x': [1., 1., 1.], 'y': [2., 2., 2.], 't': [0., 1., 2.]}      # = MC_BaseStore
 SOLVED_NAMES = {'t': 't', 'x': 'HH__F'}                               # behaviour name -> series of SIM
 SOLVED_MAXTIME = 8
+# interrupted run: behaviour name -> stored series; every stored series is tracked
+INTERRUPTED_NAMES = {'t': 'S__G', 'x': 'S__X', 'k': 'k', 'tt': 't'}
+INTERRUPTED_G = [1., 2., 4., 3., 5.]                                  # S__X = 1/(S__G - 3) fails at step 3
+MAIN_FINALLY = 'main-finally'
 
 
 # --------------------------------------------------------------------------------------
@@ -53,6 +65,8 @@ class World(object):
         from sfc_models.models import Model
         from sfc_models.utils import TimeSeriesHolder
         self.kind = kind
+        self.pristine = None
+        self.main_render = None
         if kind == 'known':
             self.model = Model()
             ts = TimeSeriesHolder('k')
@@ -74,11 +88,64 @@ class World(object):
                     raise core.MachineryError('solved model has no usable series %r' % real)
                 vals.update(ts[real])
             self.table = {v: 100 + i for i, v in enumerate(sorted(vals))}
+        elif kind == 'interrupted':
+            self._build_interrupted()
         else:
             raise core.MachineryError('unknown world ' + repr(kind))
-        self.pristine = self.deep()
+        if self.pristine is None:
+            self.pristine = self.deep()
         if not self.pristine:
             raise core.MachineryError('world %s has no stored series' % kind)
+
+    def _build_interrupted(self):
+        """A Model whose run really stops at step 3.  Model.main() renders the (ragged) store in its
+        `finally`; that call is observed by wrapping the bound method on this one solver object."""
+        from sfc_models.models import Model, Country
+        from sfc_models.sector import Sector
+        mod = Model()
+        ca = Country(mod, 'CA', 'Canada')
+        sec = Sector(ca, 'S', 'Sector', has_F=False)
+        sec.AddVariable('G', 'exogenous driver', '0.')
+        sec.AddVariable('X', 'undefined when G reaches 3', '1./(G - 3.)')
+        mod.AddExogenous('S', 'G', repr(INTERRUPTED_G))
+        mod.EquationSolver.MaxTime = len(INTERRUPTED_G) - 1
+        mod.EquationSolver.MaxIterations = 20
+        es = mod.EquationSolver
+        orig = es.GenerateCSVtext
+        seen = []
+
+        def wrapped(*a, **k):
+            before = {n: list(v) for n, v in es.TimeSeries.items()}
+            text = orig(*a, **k)
+            seen.append((before, {n: list(v) for n, v in es.TimeSeries.items()}, text,
+                         a[0] if a else k.get('format_str', '%.5g')))
+            return text
+
+        es.GenerateCSVtext = wrapped
+        failed = False
+        try:
+            mod.main()
+        except Exception:
+            failed = True
+        finally:
+            del es.GenerateCSVtext
+        self.model = mod
+        self.names = dict(INTERRUPTED_NAMES)
+        if not failed:
+            raise core.MachineryError('the interrupted-run model solved without an error')
+        if seen:
+            self.main_render = seen[0]
+            self.pristine = {n: list(v) for n, v in seen[0][0].items()}
+        else:
+            self.pristine = self.deep()
+        lens = {n: len(v) for n, v in self.pristine.items()}
+        if set(self.names.values()) != set(lens) or len(set(lens.values())) < 2 or \
+                lens.get('S__G') != len(INTERRUPTED_G):
+            raise core.MachineryError('interrupted run left an unexpected store shape %r' % (lens,))
+        vals = set()
+        for v in self.pristine.values():
+            vals.update(v)
+        self.table = {v: 100 + i for i, v in enumerate(sorted(vals))}
 
     def holder(self):
         return self.model.EquationSolver.TimeSeries
@@ -86,17 +153,19 @@ class World(object):
     def deep(self):
         return {k: list(v) for k, v in self.holder().items()}
 
-    def restore(self):
+    def restore(self, store=None):
+        """Back to the pristine stored results; the known world takes the store of the behaviour."""
         ts = self.holder()
         ts.clear()
-        for k, v in self.pristine.items():
+        src = store if (store and self.kind == 'known') else self.pristine
+        for k, v in src.items():
             ts[k] = list(v)
         self.model.TimeSeriesCutoff = None
         self.model.TimeSeriesSupressTimeZero = False
 
     def code(self, v):
-        if type(v) is int and v == SENTINEL:
-            return SENTINEL
+        if type(v) is int and v in (SENTINEL, EXTVAL):
+            return v
         if isinstance(v, bool) or not isinstance(v, (int, float)):
             return -1
         if self.table is not None:
@@ -142,10 +211,50 @@ def base_cell(cell):
 # replay
 # --------------------------------------------------------------------------------------
 
+def render_event(w, fmt, before, text):
+    """Projection of one rendered table: per tracked series the cells, coded by the stored value they
+    spell (-1 = the cell is not `fmt % stored value`)."""
+    lines = text.split('\n')
+    hdr = lines[0].split('\t')
+    rows = [ln.split('\t') for ln in lines[1:] if ln != '']
+    cols = {}
+    for b, real in w.names.items():
+        j = hdr.index(real)
+        col = []
+        for i, r in enumerate(rows):
+            stored = before.get(real, [])
+            same = i < len(stored) and j < len(r) and (fmt % (stored[i],)) == r[j]
+            col.append(w.code(stored[i]) if same else -1)
+        cols[b] = col
+    return {'ok': True, 'hdr': hdr, 'cols': cols, 'ncols': len(hdr), 'tdig': core.digest(text), 'exc': ''}
+
+
+def main_finally_events(w, base_varlist):
+    """The rendering Model.main() performed in its `finally` on the interrupted run, as a trace."""
+    if w.main_render is None:
+        raise core.MachineryError('Model.main() of the interrupted run did not render')
+    before, after, text, fmt = w.main_render
+    vl = [str(x) for x in base_varlist]
+    bdig = core.digest({k: list(v) for k, v in BASE.items()})
+    common = {'vl': vl, 'bdig': bdig, 'vl_same': True, 'base_same': True}
+    ev0 = dict({'ev': 'Init', 'world': w.kind, 'snap': w.project(before), 'dig': core.digest(before),
+                'store_same': False}, **common)
+    ev1 = {'ev': 'RenderTable', 'fmt': fmt, 'same_first': True}
+    try:
+        ev1.update(render_event(w, fmt, before, text))
+    except Exception as e:
+        ev1.update(ok=False, hdr=[], cols={}, ncols=0, tdig='', exc=type(e).__name__)
+    ev1.update(dict({'snap': w.project(after), 'dig': core.digest(after), 'store_same': before == after},
+                    **common))
+    return [ev0, ev1]
+
+
 def execute(beh, kind='known'):
     """Run one call history on the real objects; returns the list of trace events."""
     w = world(kind)
-    w.restore()
+    if beh.get('special') == MAIN_FINALLY:
+        return main_finally_events(w, beh['varlist'])
+    w.restore(beh.get('store'))
     m = w.model
     base = make_base(beh['varlist'])
     held = []
@@ -209,23 +318,17 @@ def execute(beh, kind='known'):
             before = state['deep']
             try:
                 text = m.EquationSolver.GenerateCSVtext(call['fmt'])
-                lines = text.split('\n')
-                hdr = lines[0].split('\t')
-                rows = [ln.split('\t') for ln in lines[1:] if ln != '']
-                cols = {}
-                for b, real in w.names.items():
-                    j = hdr.index(real)
-                    col = []
-                    for i, r in enumerate(rows):
-                        stored = before.get(real, [])
-                        same = i < len(stored) and j < len(r) and (call['fmt'] % (stored[i],)) == r[j]
-                        col.append(w.code(stored[i]) if same else -1)
-                    cols[b] = col
+                ev.update(render_event(w, call['fmt'], before, text))
                 first_text.setdefault(call['fmt'], text)
-                ev.update(ok=True, hdr=hdr, cols=cols, ncols=len(hdr), tdig=core.digest(text),
-                          same_first=(text == first_text[call['fmt']]), exc='')
+                ev['same_first'] = (text == first_text[call['fmt']])
             except Exception as e:
                 ev.update(ok=False, hdr=[], cols={}, ncols=0, tdig='', same_first=False, exc=type(e).__name__)
+        elif what == 'Extend':
+            ev = {'ev': 'Extend', 'name': call['name'], 'done': True}
+            try:
+                w.holder().AppendValue(w.names[call['name']], EXTVAL)
+            except Exception as e:
+                ev.update(done=False, exc=type(e).__name__)
         elif what == 'BaseCsv':
             ev = {'ev': 'BaseCsv'}
             try:
@@ -280,7 +383,9 @@ def signature(clause, at, events):
             return 'mutating-returned-list-changes-%s:list-from-get(%s)' % (_changed(ev), _cs(src))
         if what == 'BaseCsv':
             return 'basecsv-changes-%s' % _changed(ev)
-        return 'render-changes-%s' % _changed(ev)
+        pre = events[at - 2].get('snap', {}) if at >= 2 else {}
+        ragged = len(set(len(v) for v in pre.values())) > 1
+        return 'render-changes-%s%s' % (_changed(ev), ':ragged-store' if ragged else '')
     if clause == 'C16_GetValue':
         return 'get-wrong-value:%s%s' % (_cs(ev), '' if ev.get('ok') else ':raises-' + str(ev.get('exc')))
     if clause == 'C16_Repeatable':
@@ -308,6 +413,8 @@ def call_text(c):
         return 'SetCutoff(%s)' % ('None' if c['c'] == NOCUT else c['c'])
     if c['ev'] == 'RenderTable':
         return 'RenderTable(%s)' % c['fmt']
+    if c['ev'] == 'Extend':
+        return 'Extend(%s)' % c['name']
     return c['ev']
 
 
@@ -364,29 +471,43 @@ def behaviours_of(rep, cfg, seen):
 
 
 def run(rep):
-    cfgs = ['MC_Results_quick.cfg', 'MC_Results_quick2.cfg'] if rep.tier == 'quick' else \
-        ['MC_Results_quick.cfg', 'MC_Results_quick2.cfg', 'MC_Results_thorough.cfg', 'MC_Results_thorough2.cfg']
+    cfgs = ['MC_Results_quick.cfg', 'MC_Results_quick2.cfg', 'MC_Results_ragged.cfg'] if rep.tier == 'quick' else \
+        ['MC_Results_quick.cfg', 'MC_Results_quick2.cfg', 'MC_Results_ragged.cfg', 'MC_Results_thorough.cfg',
+         'MC_Results_thorough2.cfg', 'MC_Results_ragged_thorough.cfg']
     rep.rule = ('behaviours = all maximal call histories of the bounded Results instance emitted by TLC '
                 '(Get name x cutoff, MutateHeld index x {append,pop}, SetSuppress, SetCutoff, RenderTable fmt, '
-                'BaseCsv; MaxHist calls); each is executed on a real Model holding the known series (and, '
-                'thorough tier, the quick-instance histories also on a solved SIM model); '
+                'BaseCsv, Extend name; MaxHist calls; rectangular and ragged initial stores); each is executed on '
+                'a real Model holding the known series (and, thorough tier, the quick-instance histories also on '
+                'a solved SIM model and the ragged-instance histories on a Model whose run was interrupted, plus '
+                'the rendering done by that Model.main() itself); '
                 'distinct = distinct (world, history) JSON; non-trivial = at least one read call and >= 2 calls')
     rep.exhaustive = True
-    rep.assumptions = ['stored series of length 3 (known) / 9 (solved SIM model, MaxTime 8); two series tracked',
+    rep.assumptions = ['stored series of length 3 or 5/3 ragged (known) / 9 (solved SIM model, MaxTime 8; two series '
+                       'tracked) / 5,5,3,3 (interrupted run; all four tracked)',
                       'snapshots are deep copies of EquationSolver.TimeSeries taken through the dict interface',
                       'TLC 1.8 / tla2tools; CommunityModules Json/IOUtils']
     seen = set()
     first = None
+    ragged = []
     for cfg in cfgs:
         behs = behaviours_of(rep, cfg, seen)
         if first is None:
             first = behs
+        if 'ragged' in cfg:
+            if not any(c['ev'] == 'RenderTable' for b in behs for c in b['calls']) or \
+                    len(set(len(v) for v in behs[0]['store'].values())) < 2:
+                raise core.MachineryError('%s does not render a ragged store' % cfg)
+            ragged.extend(behs)
         judge(rep, behs, 'known')
     if rep.tier != 'quick':
         rnd = random.Random(rep.seed)
         extra = list(first)
         rnd.shuffle(extra)          # order only; all of them are replayed
         judge(rep, extra, 'solved')
+        special = {'special': MAIN_FINALLY, 'varlist': ['x', 'y', 't'],
+                   'calls': [{'ev': 'RenderTable', 'name': '', 'c': NOCUT, 'i': 0, 'op': '', 'b': False,
+                              'fmt': '%.5g'}]}
+        judge(rep, [special] + ragged, 'interrupted')
 
 
 def replay(path):
